@@ -50,6 +50,9 @@ class EpochTables(Space):
         nev, nt, outs = 0, False, []
         for centre in ('peak', 'trough'):
             df = mk_table(sides, centre)
+            if sum(sides) % 4 == 1:
+                df['Label'] = 'chan-1'
+                df = df[list(df.columns[::-1])]
             ik = (sum(sides) + (centre == 'trough')) % 3      # row labels: default / offset (a slice, limit_df output) / duplicate
             if ik == 1:
                 df.index = range(9, 9 + len(df))
@@ -82,7 +85,7 @@ class EpochTables(Space):
                             return VIOL(dict(sgn, kind='wrong-epoch'), 'cycle with closing extremum %d placed in epoch %d (length %d)' % (c, e, E),
                                         observed=obs, evals=nev)
                         for col in df.columns:
-                            exp = df[col].iloc[j] - (e * E if col.startswith('sample_') else 0)
+                            exp = df[col].iloc[j] - e * E if col.startswith('sample_') else df[col].iloc[j]
                             if o[col].iloc[pos] != exp:
                                 return VIOL(dict(sgn, kind='value', sample=col.startswith('sample_')),
                                             'epoch %d row %d column %s = %r, expected %r' % (e, pos, col, o[col].iloc[pos], exp),
